@@ -9,6 +9,7 @@ From NV Require Import Model.Utf32.
 From NV Require Import Model.PatternScore.
 From NV Require Import Model.PatternParse Spec.PatternParseSpec.
 From NV Require Import Model.Nucleo.
+From NV Require Import Model.ParSort.
 Extraction Language OCaml.
 Extraction "nv.ml" config_of preset_default preset_match_paths preset_set_match_paths
   to_lower is_upper normalize norm class class_norm cls_rank wf_char
@@ -20,6 +21,8 @@ Extraction "nv.ml" config_of preset_default preset_match_paths preset_set_match_
   pattern_parse pattern_new pattern_reparse atom_new atom_parse crlf seg_table seg_simple
   escape escapable literal_atom marker_text lead_ok tail_ok tbl_negative tbl_kind tbl_source tbl_dollar
   spec_atoms fold_if spec_ignore_case spec_normalize is_ascii
+  par_quicksort_model par_quicksort partition_in_blocks pib_spec worker_less r_flag r_list r_loads r_trace
+  insertion_sort heapsort partial_insertion_sort partition_equal choose_pivot break_patterns
   layout_offsets view_lengths
   init_state count do_event step_thread lookup location_of
   Nucleo.init_nstate Nucleo.do_event Nucleo.enabled_tick Nucleo.active_injectors Nucleo.count_of Nucleo.published.
